@@ -647,3 +647,122 @@ Proof.
   - pose proof (civil_from_days_succ (today - 1)) as H. replace (today - 1 + 1) with today in H by ring.
     destruct (civil_from_days (today - 1)) as [[y m] d]. exact H.
 Qed.
+
+(* ------------------------------------------------------------------------------------- *)
+(* 6. printing a date: month words and year elision                                       *)
+(* ------------------------------------------------------------------------------------- *)
+Definition EN_LONG : list str :=
+  map s ["January"; "February"; "March"; "April"; "May"; "June"; "July"; "August"; "September"; "October";
+         "November"; "December"]%string.
+Definition EN_SHORT : list str :=
+  map s ["Jan"; "Feb"; "Mar"; "Apr"; "May"; "Jun"; "Jul"; "Aug"; "Sep"; "Oct"; "Nov"; "Dec"]%string.
+(* Ocak Şubat Mart Nisan Mayıs Haziran Temmuz Ağustos Eylül Ekim Kasım Aralık *)
+Definition TR_LONG : list str :=
+  [s "Ocak"; [350; 117; 98; 97; 116]%N; s "Mart"; s "Nisan"; [77; 97; 121; 305; 115]%N; s "Haziran"; s "Temmuz";
+   [65; 287; 117; 115; 116; 111; 115]%N; [69; 121; 108; 252; 108]%N; s "Ekim"; [75; 97; 115; 305; 109]%N;
+   [65; 114; 97; 108; 305; 107]%N].
+Definition TR_SHORT : list str :=
+  [s "Oca"; [350; 117; 98]%N; s "Mar"; s "Nis"; s "May"; s "Haz"; s "Tem"; [65; 287; 117]%N; s "Eyl"; s "Eki";
+   s "Kas"; s "Ara"].
+
+Definition month_names (lang : str) : list str * list str :=
+  if str_eqb lang (s "tr") then (TR_LONG, TR_SHORT) else (EN_LONG, EN_SHORT).
+
+(* the tables regenerated from config.json: the month words (capitalised as printed) are the
+   language's names in calendar order, and the two date patterns *)
+Theorem print_tables :
+  forall lang, In lang [s "en"; s "tr"] ->
+  option_map (map (fun mi => (uppercase_first_letter (mi_long mi), uppercase_first_letter (mi_short mi), mi_month mi)))
+             (assoc lang d_months)
+  = Some (combine (combine (fst (month_names lang)) (snd (month_names lang))) [1; 2; 3; 4; 5; 6; 7; 8; 9; 10; 11; 12]) /\
+  option_map (fun f => (lf_language f, assoc (s "current_year") (lf_date f), assoc (s "full_date") (lf_date f)))
+             (assoc lang d_format)
+  = Some (lang, Some (s "{day} {month_long}"), Some (s "{day} {month_short} {year}")).
+Proof.
+  intros lang [<-|[<-|[]]]; split; vm_compute; reflexivity.
+Qed.
+
+(* the reference text: 'day Month' in the current year, 'day Mon year' otherwise *)
+Definition ref_print (lang : str) (now_year : Z) (n : Z) : str :=
+  let '(y, m, d) := civil_from_days n in
+  let '(long, short) := month_names lang in
+  if y =? now_year then Z_to_str d ++ 32%N :: nth (Z.to_nat (m - 1)) long []
+  else Z_to_str d ++ 32%N :: nth (Z.to_nat (m - 1)) short [] ++ 32%N :: Z_to_str y.
+
+(* the year is compared with the clock and nothing else *)
+Lemma date_print_now {F} (cfg : config F) lang ny1 ny2 n tz :
+  (year_of n =? ny1) = (year_of n =? ny2) -> date_print cfg lang ny1 n tz = date_print cfg lang ny2 n tz.
+Proof.
+  unfold date_print, year_of. destruct (lang_format cfg lang); [|reflexivity].
+  destruct (civil_from_days n) as [[y m] d]. intros ->. reflexivity.
+Qed.
+
+Lemma ref_print_now lang ny1 ny2 n :
+  (year_of n =? ny1) = (year_of n =? ny2) -> ref_print lang ny1 n = ref_print lang ny2 n.
+Proof.
+  unfold ref_print, year_of. destruct (civil_from_days n) as [[y m] d]. intros ->. reflexivity.
+Qed.
+
+Definition print_ok (lang : str) (ny : Z) (n : Z) : bool :=
+  str_eqb (date_print default_config lang ny n UTC) (ref_print lang ny n).
+
+Lemma print_window :
+  forallb (fun lang => forallb (fun ny =>
+    forall_range (print_ok lang ny) (days_from_civil 2023 12 31) 368) [2024; 0]) [s "en"; s "tr"] = true.
+Proof. vm_cast_no_check (eq_refl true). Qed.
+
+(* every day of the leap year 2024 (and the two days around it), en and tr, every clock: the
+   printed month word is the language's name of the calendar month of the date, and the year
+   is elided iff it is the current year *)
+Theorem print_2024 lang now_year n :
+  In lang [s "en"; s "tr"] ->
+  days_from_civil 2023 12 31 <= n <= days_from_civil 2025 1 1 ->
+  date_print default_config lang now_year n UTC = ref_print lang now_year n.
+Proof.
+  intros Hl Hn.
+  assert (W : forall ny, In ny [2024; 0] -> print_ok lang ny n = true).
+  { intros ny Hy. pose proof print_window as P. rewrite forallb_forall in P. specialize (P lang Hl).
+    rewrite forallb_forall in P. specialize (P ny Hy).
+    apply (forall_range_spec _ _ _ P). change (days_from_civil 2025 1 1) with (days_from_civil 2023 12 31 + 367) in Hn.
+    lia. }
+  assert (Y : 2023 <= year_of n <= 2025).
+  { unfold year_of. destruct (civil_from_days n) as [[y m] d] eqn:E.
+    pose proof (civil_from_days_valid _ _ _ _ E) as V.
+    pose proof (days_from_civil_of_civil_from_days _ _ _ _ E) as En. rewrite <- En in Hn.
+    destruct (valid_date_bounds _ _ _ V) as (Hm & Hd & Hd31). destruct Hn as [H1 H2].
+    split.
+    - destruct (Z_lt_ge_dec y 2023) as [L|G]; [|lia]. exfalso.
+      assert (days_from_civil y m d < days_from_civil 2023 12 31); [|lia].
+      apply days_from_civil_lt; [exact V | reflexivity | lia].
+    - destruct (Z_lt_ge_dec 2025 y) as [L|G]; [|lia]. exfalso.
+      assert (days_from_civil 2025 1 1 < days_from_civil y m d); [|lia].
+      apply days_from_civil_lt; [reflexivity | exact V | lia]. }
+  destruct (Z.eqb_spec (year_of n) now_year) as [Ey|Ny].
+  - (* the clock shows the year of the date: only 2024 is inside the window's interior ... *)
+    destruct (Z.eq_dec (year_of n) 2024) as [E4|N4].
+    + rewrite (date_print_now default_config lang now_year 2024 n UTC), (ref_print_now lang now_year 2024 n)
+        by (rewrite <- Ey, E4; reflexivity).
+      apply str_eqb_eq. apply W. left. reflexivity.
+    + (* 31 dec 2023 or 1 jan 2025 in their own year: checked separately *)
+      subst now_year.
+      assert (Hb : n = days_from_civil 2023 12 31 \/ n = days_from_civil 2025 1 1).
+      { unfold year_of in *. destruct (civil_from_days n) as [[y m] d] eqn:E.
+        pose proof (civil_from_days_valid _ _ _ _ E) as V.
+        pose proof (days_from_civil_of_civil_from_days _ _ _ _ E) as En.
+        destruct (valid_date_bounds _ _ _ V) as (Hm & Hd & Hd31).
+        destruct (Z.eq_dec y 2023) as [->|N3].
+        - left. destruct (Z_lt_ge_dec n (days_from_civil 2023 12 31)) as [L|G]; [lia|].
+          destruct (Z.eq_dec n (days_from_civil 2023 12 31)) as [e|ne]; [exact e|exfalso].
+          assert (L : days_from_civil 2023 12 31 < days_from_civil 2023 m d) by lia.
+          apply days_from_civil_lt in L; [lia | reflexivity | exact V].
+        - right. assert (y = 2025) by lia. subst y.
+          destruct (Z.eq_dec n (days_from_civil 2025 1 1)) as [e|ne]; [exact e|exfalso].
+          assert (L : days_from_civil 2025 m d < days_from_civil 2025 1 1) by lia.
+          apply days_from_civil_lt in L; [lia | exact V | reflexivity]. }
+      destruct Hl as [<-|[<-|[]]]; destruct Hb as [-> | ->]; vm_compute; reflexivity.
+  - rewrite (date_print_now default_config lang now_year (if year_of n =? 0 then 1 else 0) n UTC),
+            (ref_print_now lang now_year (if year_of n =? 0 then 1 else 0) n).
+    + destruct (Z.eqb_spec (year_of n) 0); [lia|]. apply str_eqb_eq. apply W. right. left. reflexivity.
+    + destruct (Z.eqb_spec (year_of n) 0); destruct (Z.eqb_spec (year_of n) now_year); try lia; reflexivity.
+    + destruct (Z.eqb_spec (year_of n) 0); destruct (Z.eqb_spec (year_of n) now_year); try lia; reflexivity.
+Qed.
